@@ -379,7 +379,8 @@ Record hcfg := mkH {
   h_mode : nat;      (* retry: 0 off | 1 long back-off (never elapses) | 2 short back-off | 3 gives up at once *)
   h_min : nat }.     (* batch min_size in items *)
 
-Inductive action := AOffer (i : id) (sz : nat) | ARelease (i : id) (o : outcome) | AShutdown.
+Inductive action := AOffer (i : id) (sz : nat) | ARelease (i : id) (o : outcome) | AShutdown
+                  | ATimerFire.   (* the harness makes the batcher's flush timer fire now *)
 
 Definition event := (nat * list id)%type.
 (* kinds: 0 export begins (ids) | 1 export ends (ids) | 2 Shutdown returned | 3 wrapped exporter shut down
@@ -486,6 +487,7 @@ Definition action_label (hc : hcfg) (s : state) (a : action) : option label :=
   | AOffer i _ => Some (if c_persist (h_cfg hc) && closed s then LOfferFail i else LOffer i)
   | ARelease i o => option_map (fun k => LEnd k o) (find_call i 0 (works s))
   | AShutdown => Some LShutCall
+  | ATimerFire => Some LTimerFire
   end.
 
 Definition settle_fuel : nat := 400.
